@@ -82,12 +82,30 @@ pub struct Client {
 /// typed capture of every wire message (type name, protobuf bytes) for the `wire` domain (C14 / C15)
 pub static WIRE_TYPED_ON: std::sync::atomic::AtomicBool = std::sync::atomic::AtomicBool::new(false);
 pub static WIRE_TYPED: std::sync::Mutex<Vec<(String, Vec<u8>)>> = std::sync::Mutex::new(Vec::new());
+/// value-level round trip done at capture time: (type, what differs) for every message with decode(encode(v)) != v
+pub static WIRE_VALUE_DIFFERS: std::sync::Mutex<Vec<(String, String)>> = std::sync::Mutex::new(Vec::new());
+pub static WIRE_VALUES_CHECKED: std::sync::atomic::AtomicU64 = std::sync::atomic::AtomicU64::new(0);
 
 impl Client {
-    async fn tap<T: sos_protocol::WireEncodeDecode + Clone + Send + 'static>(&self, v: &T) {
+    async fn tap<T: sos_protocol::WireEncodeDecode + Clone + PartialEq + std::fmt::Debug + Send + 'static>(&self, v: &T) {
         let typed = WIRE_TYPED_ON.load(std::sync::atomic::Ordering::Relaxed);
         if self.wire.is_none() && !typed { return; }
         if let Ok(b) = v.clone().encode().await {
+            if typed {
+                // C14 at the value level: what the receiver decodes is what the sender held
+                let n = std::any::type_name::<T>().rsplit("::").next().unwrap_or("?").to_string();
+                WIRE_VALUES_CHECKED.fetch_add(1, std::sync::atomic::Ordering::Relaxed);
+                match T::decode(bytes::Bytes::copy_from_slice(&b)).await {
+                    Ok(back) => if &back != v {
+                        let (x, y) = (format!("{:?}", v), format!("{:?}", back));
+                        let at = x.bytes().zip(y.bytes()).position(|(p, q)| p != q).unwrap_or(x.len().min(y.len()));
+                        let lo = at.saturating_sub(80);
+                        let cut = |s: &str| s.chars().skip(lo).take(240).collect::<String>();
+                        let mut d = WIRE_VALUE_DIFFERS.lock().unwrap(); if d.len() < 200 { d.push((n, format!("sent …{}… decoded …{}…", cut(&x), cut(&y)))); }
+                    },
+                    Err(e) => { let mut d = WIRE_VALUE_DIFFERS.lock().unwrap(); if d.len() < 200 { d.push((n, format!("decode error: {e}"))); } }
+                }
+            }
             if typed { let n = std::any::type_name::<T>().rsplit("::").next().unwrap_or("?").to_string(); let mut t = WIRE_TYPED.lock().unwrap(); if t.len() < 20_000 { t.push((n, b.to_vec())); } }
             if let Some(w) = &self.wire { w.lock().unwrap().push(b.to_vec()); }
         }
